@@ -80,6 +80,8 @@ namespace K
       simp [h1, this]
     · simp [h1]
 
+@[simp] theorem nanToZero_real (x : ℝ) : nanToZero x = x := by unfold nanToZero; simp
+
 theorem fmax_real (x y : ℝ) : fmax x y = max x y := by
   unfold fmax; simp only [isNaN_real]; simp only [Bool.false_eq_true, if_false]
   split
